@@ -20,15 +20,14 @@ pub(crate) fn is_Option(ty: &syn::Type) -> bool {
 #[allow(non_snake_case)]
 pub(crate) fn inner_Option(ty: &syn::Type) -> Option<syn::Type> {
     let ty = quote::ToTokens::to_token_stream(ty).to_string();
-    match ty.split_once(" < ")? {
-        (
-            | "Option"
-            | "std::option::Option"
-            | "core::option::Option"
-            | "::std::option::Option"
-            | "::core::option::Option",
-            remained
-        ) => {
+    let (path, remained) = ty.split_once(" < ")?;
+    match &*path.replace(' ', ""/* tokens are printed as `std :: option :: Option` */) {
+        | "Option"
+        | "std::option::Option"
+        | "core::option::Option"
+        | "::std::option::Option"
+        | "::core::option::Option"
+        => {
             syn::parse_str(remained.strip_suffix(" >")?).ok()
         }
         _ => None
